@@ -42,6 +42,17 @@ theorem part_count (bs : Bytes) (h : store_fieldByteLimit ≤ bs.length) :
   simp only [Bool.false_eq_true, if_false]
   rw [writeParts_length, List.length_drop]
 
+/-- T1 (what `Blob.writeParts` assumes of the loop in `writeBlobParts`): every iteration names its
+    part and puts it, with nothing conditional in between — also for the empty last part of a
+    payload whose length is an exact multiple of the limit (`part_count` counts it, `blob.read`
+    fetches it). -/
+theorem every_named_part_is_put : store_everyNamedPartIsPut = true := by decide
+
+/-- … and that empty last part really occurs: a payload of exactly `2·limit` bytes has two parts, the second one empty. -/
+theorem exact_multiple_has_empty_last_part :
+    store_partCount store_fieldByteLimit = 2 ∧ store_partBounds 1 store_fieldByteLimit = (store_fieldByteLimit, store_fieldByteLimit) := by
+  decide
+
 theorem limits : store_fieldByteLimit = 1000000 ∧ cache_cacheEntrySizeLimit = 1000000 := by decide
 
 end InvProxy.C19
